@@ -1482,6 +1482,7 @@ func Run(cfg core.Config, scope core.Scope) *core.Result {
 		"STRIDE.pair: at every call or struct literal a (slice, stride) pair refers to one operand",
 		"STRIDE.unitidx: an element of a vector parameter with an increment parameter inc* is addressed by an index that does not involve that increment (a bare loop counter) only where the control-flow graph restricted to inc != 1 cannot reach",
 		"STRIDE.fullrange: a loop that stores into a vector parameter which has an inc* parameter does not range over the whole parameter slice (whose length is only bounded below) but over a reslice by the element count",
+		"STRIDE.flatfill: a matrix parameter with a leading dimension is not written by one flat loop (or clear) over a slice whose bound is built from that leading dimension: the elements between the rows are not part of the operand",
 		"STRIDE.veclda: a contiguous vector parameter (no ld/inc of its own) handed to a callee's matrix parameter as a single column (cols == 1) is not given a bare problem dimension as its leading dimension")
 	res.Configs = append(res.Configs, cfg.String())
 	pkgs, err := core.Load(cfg, patterns...)
@@ -1613,6 +1614,7 @@ func analyseFunc(res *core.Result, pkg *packages.Package, fd *ast.FuncDecl) {
 	fa.check(fd.Body)
 	fa.checkUnitIndex(fd)
 	fa.checkFullRange(fd)
+	fa.checkFlatFill(fd)
 	fa.checkWorkBlocks()
 	fa.checkWorkNext(fd.Body)
 	if res.Obligations > ob {
@@ -1853,6 +1855,111 @@ func (fa *funcAnalysis) checkFullRange(fd *ast.FuncDecl) {
 				Pos:  core.Pos(rs.Pos()), Func: fa.name,
 				Msg: fmt.Sprintf("the loop ranges over the whole slice %s and stores into it: %s is only required to hold at least the addressed elements, so elements behind the operand (trailing length of a longer slice handed in by the caller) are overwritten; range over %s[:count]", o.Name(), o.Name(), o.Name()),
 			})
+		}
+		return true
+	})
+}
+
+// checkFlatFill implements STRIDE.flatfill. The rows of a matrix operand are
+// ld elements apart but only cols long; the ld-cols elements between them
+// belong to the caller (the neighbouring columns when the operand is a column
+// block of a wider matrix). Zeroing or scaling an operand is therefore done
+// row by row. A single loop `for i := range b[:ldb*(m-1)+n] { b[i] = … }`, or
+// clear(b[:ldb*(m-1)+n]), walks across the padding. Reported: a range over (or
+// clear of) a reslice of a matrix parameter whose upper bound carries that
+// parameter's own ld unit, when the body stores through the range key.
+func (fa *funcAnalysis) checkFlatFill(fd *ast.FuncDecl) {
+	ldOf := map[string]bool{}
+	for o, k := range fa.strideOwner {
+		if strings.HasPrefix(strings.ToLower(o.Name()), "ld") {
+			ldOf[k] = true
+		}
+	}
+	if len(ldOf) == 0 {
+		return
+	}
+	flat := func(e ast.Expr) (string, *ast.SliceExpr, bool) {
+		se, ok := ast.Unparen(e).(*ast.SliceExpr)
+		if !ok || se.High == nil {
+			return "", nil, false
+		}
+		k, ok := fa.baseOwner(se.X)
+		if !ok || !ldOf[k] {
+			return "", nil, false
+		}
+		units := map[string]bool{}
+		fa.exprUnits(se.High, units)
+		if !units[k] {
+			return "", nil, false
+		}
+		// a row slice a[i*lda : i*lda+n] has the unit in its low bound too
+		if se.Low != nil {
+			lu := map[string]bool{}
+			fa.exprUnits(se.Low, lu)
+			if lu[k] {
+				return "", nil, false
+			}
+		}
+		return k, se, true
+	}
+	report := func(pos token.Pos, k string, what string) {
+		fa.res.Add(core.Finding{
+			Rule: "STRIDE.flatfill",
+			Key:  fmt.Sprintf("STRIDE.flatfill|%s|%s", fa.name, fa.ownerLabel(k)),
+			Pos:  core.Pos(pos), Func: fa.name,
+			Msg: fmt.Sprintf("%s walks the matrix operand %s as one contiguous range whose length is built from its leading dimension: the elements between the rows (stride padding, i.e. the neighbouring columns of an enclosing matrix) are written too", what, fa.ownerLabel(k)),
+		})
+	}
+	ast.Inspect(fd.Body, func(n ast.Node) bool {
+		switch x := n.(type) {
+		case *ast.RangeStmt:
+			k, se, ok := flat(x.X)
+			if !ok {
+				return true
+			}
+			fa.res.Obligations++
+			fa.res.Count("flat_ranges_over_matrix_operands", 1)
+			key, _ := x.Key.(*ast.Ident)
+			if key == nil {
+				return true
+			}
+			ko := core.ObjOf(fa.info, key)
+			stores := false
+			ast.Inspect(x.Body, func(m ast.Node) bool {
+				if as, ok := m.(*ast.AssignStmt); ok {
+					for _, l := range as.Lhs {
+						if ix, ok := ast.Unparen(l).(*ast.IndexExpr); ok {
+							if bk, ok := fa.baseOwner(ix.X); ok && bk == k {
+								if id, ok := ast.Unparen(ix.Index).(*ast.Ident); ok && core.ObjOf(fa.info, id) == ko {
+									stores = true
+								}
+							}
+						}
+					}
+				}
+				return true
+			})
+			if stores {
+				report(x.Pos(), k, "the loop over "+types.ExprString(se))
+			}
+		case *ast.CallExpr:
+			if id, ok := x.Fun.(*ast.Ident); ok && (id.Name == "clear" || id.Name == "zero") && len(x.Args) == 1 {
+				if k, se, ok := flat(x.Args[0]); ok {
+					fa.res.Obligations++
+					fa.res.Count("flat_ranges_over_matrix_operands", 1)
+					report(x.Pos(), k, id.Name+"("+types.ExprString(se)+")")
+				}
+			}
+			// a vector kernel of internal/asm handed the whole extent
+			if fn, _ := typeutil.Callee(fa.info, x).(*types.Func); fn != nil && fn.Pkg() != nil && strings.Contains(fn.Pkg().Path(), "/internal/asm/") {
+				for _, a := range x.Args {
+					if k, se, ok := flat(a); ok {
+						fa.res.Obligations++
+						fa.res.Count("flat_ranges_over_matrix_operands", 1)
+						report(x.Pos(), k, fn.Name()+"(… "+types.ExprString(se)+" …)")
+					}
+				}
+			}
 		}
 		return true
 	})
